@@ -119,8 +119,12 @@ EArgUniverse(q) == UNION {{m.args[i].n : i \in 1..Len(m.args)} : m \in EAllMetho
 
 (* ---- query response metadata (C16) -------------------------------------- *)
 (* the table exported for schema generation: wire name of each query -> declared response type *)
-EResponses(part) == {<<m.wire, m.resp>> : m \in Range(EMethodsOf(part, "query"))}
-EContractResponses(q) == UNION {EResponses(q.parts[i]) : i \in 1..Len(q.parts)}
+(* (a response type "GenT" is the type a generic contract is used with: the table is that of one instantiation) *)
+InstResp(r, inst) == IF r = "GenT" THEN inst ELSE r
+EResponsesAt(part, inst) == {<<m.wire, InstResp(m.resp, inst)>> : m \in Range(EMethodsOf(part, "query"))}
+EContractResponsesAt(q, inst) == UNION {EResponsesAt(q.parts[i], inst) : i \in 1..Len(q.parts)}
+EResponses(part) == EResponsesAt(part, "GenVal")
+EContractResponses(q) == EContractResponsesAt(q, "GenVal")
 
 (* ---- the JSON encoding of the value an echo query handler returns, per declared response type ---- *)
 (* (tagged JSON values, DESIGN 5.3; m: an elaborated method) *)
@@ -137,6 +141,7 @@ QRespJson(m) ==      \* the JSON encoding of the value the echo query handler re
       [] m.ret = "ArrB"    -> JArr(<<QObj(m, TRUE), QObj(m, TRUE)>>)        \* [QRespB; 2]
       [] m.ret = "Bin"     -> [t |-> "s", v |-> "Ymlu"]                     \* Binary holding the bytes "bin": a JSON string in base64
       [] m.ret = "Str"     -> [t |-> "s", v |-> m.name]                     \* String holding the handler's name
+      [] m.ret = "GenT"    -> [t |-> "o", f |-> << [k |-> "g", v |-> JNum(m.code)] >>]      \* the type the generic contract is used with
       [] OTHER             -> QObj(m, FALSE)
 
 (* ---- JSON shape of messages (C01) -------------------------------------- *)
